@@ -100,6 +100,7 @@ pub fn obj_facts(obj: &ObjSpec, oti: &OtiSpec, spec: &SenderSpec, transfer_len: 
         SourceSpec::Buffer => "buffer",
         SourceSpec::Cursor => "cursor",
         SourceSpec::Chunked(_) => "chunked",
+        SourceSpec::ChunkedAt(..) => "chunked_at",
         SourceSpec::File => "file",
         SourceSpec::BufFile => "buffile",
     }));
